@@ -248,5 +248,10 @@ fn main() {
             std::process::exit(1);
         }
     }
+    let _ = std::fs::create_dir_all(format!("{dir}/replays"));
+    let _ = std::fs::write(
+        format!("{dir}/replays/aux-{id}-no-serde.json"),
+        format!("{{\"configuration\": \"no-serde: enr with feature verif only, stand-alone program (noserde/)\", \"tier\": \"{}\", \"seed\": {seed}, \"evaluations\": {total}, \"violations\": 0}}", args[1]),
+    );
     println!("ok(other configuration) property={id} cases={total} [no-serde: enr with feature verif only, stand-alone program]");
 }
